@@ -1,7 +1,7 @@
 //! G4 (C07): skipping an unknown i32 field through the compact reader must consume exactly the
 //! varint that encodes it, so that the next field decodes correctly.
 use bytes::BytesMut;
-use pilota::thrift::{compact::{TCompactInputProtocol, TCompactOutputProtocol}, TInputProtocol, TOutputProtocol, TStructIdentifier, TType};
+use pilota::thrift::{compact::{TCompactInputProtocol, TCompactOutputProtocol}, TInputProtocol, TOutputProtocol, TStructIdentifier, TType, TListIdentifier, TSetIdentifier, TMapIdentifier};
 fn main() {
     let sid = TStructIdentifier::new("s");
     let mut buf = BytesMut::new();
@@ -27,4 +27,53 @@ fn main() {
     let f = i.read_field_begin().unwrap();
     assert_eq!((f.field_type, f.id), (TType::I64, Some(2)));
     assert_eq!(i.read_i64().unwrap(), 1234567);
+    tree();
+}
+/// a value tree with every wire type, skipped as one struct: the count is the whole encoding and the
+/// byte that follows is still there
+fn tree() {
+    let sid = TStructIdentifier::new("s");
+    let mut buf = BytesMut::new();
+    {
+        let mut o = TCompactOutputProtocol::new(&mut buf, false);
+        o.write_struct_begin(&sid).unwrap();
+        o.write_field_begin(TType::Bool, 1).unwrap(); o.write_bool(true).unwrap(); o.write_field_end().unwrap();
+        o.write_field_begin(TType::I8, 2).unwrap(); o.write_i8(-3).unwrap(); o.write_field_end().unwrap();
+        o.write_field_begin(TType::I16, 300).unwrap(); o.write_i16(-300).unwrap(); o.write_field_end().unwrap();
+        o.write_field_begin(TType::Double, 301).unwrap(); o.write_double(1.5).unwrap(); o.write_field_end().unwrap();
+        o.write_field_begin(TType::Binary, 302).unwrap(); o.write_string("hello compact").unwrap(); o.write_field_end().unwrap();
+        o.write_field_begin(TType::Uuid, 303).unwrap(); o.write_uuid([7u8; 16]).unwrap(); o.write_field_end().unwrap();
+        o.write_field_begin(TType::List, 304).unwrap();
+        o.write_list_begin(TListIdentifier { element_type: TType::Bool, size: 3 }).unwrap();
+        o.write_bool(true).unwrap(); o.write_bool(false).unwrap(); o.write_bool(true).unwrap();
+        o.write_list_end().unwrap(); o.write_field_end().unwrap();
+        o.write_field_begin(TType::Set, 305).unwrap();
+        o.write_set_begin(TSetIdentifier { element_type: TType::I64, size: 20 }).unwrap();
+        for k in 0..20i64 { o.write_i64(k * 1_000_000_007).unwrap(); }
+        o.write_set_end().unwrap(); o.write_field_end().unwrap();
+        o.write_field_begin(TType::Map, 306).unwrap();
+        o.write_map_begin(TMapIdentifier { key_type: TType::I32, value_type: TType::Struct, size: 2 }).unwrap();
+        for k in 0..2 {
+            o.write_i32(k).unwrap();
+            o.write_struct_begin(&sid).unwrap();
+            o.write_field_begin(TType::Bool, 9).unwrap(); o.write_bool(false).unwrap(); o.write_field_end().unwrap();
+            o.write_field_begin(TType::I32, 10).unwrap(); o.write_i32(k * 70000).unwrap(); o.write_field_end().unwrap();
+            o.write_field_stop().unwrap();
+            o.write_struct_end().unwrap();
+        }
+        o.write_map_end().unwrap(); o.write_field_end().unwrap();
+        o.write_field_begin(TType::Map, 307).unwrap();
+        o.write_map_begin(TMapIdentifier { key_type: TType::I32, value_type: TType::I32, size: 0 }).unwrap();
+        o.write_map_end().unwrap(); o.write_field_end().unwrap();
+        o.write_field_stop().unwrap();
+        o.write_struct_end().unwrap();
+    }
+    let total = buf.len();
+    buf.extend_from_slice(&[0x5a]);
+    let mut b = buf.freeze();
+    let mut i = TCompactInputProtocol::new(&mut b);
+    let r = i.skip(TType::Struct);
+    println!("skip(Struct) over a {}-byte value tree -> {:?}", total, r.as_ref().map(|n| *n).map_err(|_| "Err"));
+    assert_eq!(r.expect("skip of a well-formed struct must succeed"), total);
+    assert_eq!(i.read_byte().unwrap(), 0x5a, "what follows the skipped value must be intact");
 }
